@@ -20,6 +20,11 @@ pub enum Op {
     Add(usize),
     /// `history -s WORDS[k]`
     AddS(usize),
+    /// a line accepted by reedline in an interactive session: the adapter's `save(item)` (as
+    /// reedline's engine calls it), then Shell::add_to_history (as the interactive loop does)
+    RlAdd(usize),
+    /// the adapter's `sync()`
+    RlSync,
     /// Shell::save_history()  (what the interactive loop does at exit)
     Save,
     /// `history -a`
@@ -104,7 +109,13 @@ thread_local! {
 }
 
 struct Session {
-    shell: SimShell,
+    shell: std::sync::Arc<tokio::sync::Mutex<SimShell>>,
+}
+
+impl Session {
+    fn sh(&self) -> tokio::sync::MutexGuard<'_, SimShell> {
+        self.shell.try_lock().expect("session shell is never locked across operations")
+    }
 }
 
 fn new_session(histfile: &PathBuf, dir: &PathBuf) -> Result<Session, String> {
@@ -128,20 +139,21 @@ fn new_session(histfile: &PathBuf, dir: &PathBuf) -> Result<Session, String> {
                 .await
         })
     });
-    Ok(Session { shell: shell.map_err(|e| e.to_string())? })
+    Ok(Session { shell: std::sync::Arc::new(tokio::sync::Mutex::new(shell.map_err(|e| e.to_string())?)) })
 }
 
 fn run(s: &mut Session, cmd: &str) -> Result<u8, String> {
-    let params = s.shell.default_exec_params();
+    let mut guard = s.sh();
+    let params = guard.default_exec_params();
     let si = brush_core::SourceInfo::from("c20");
-    let shell = &mut s.shell;
+    let shell: &mut SimShell = &mut guard;
     RT.with(|rt| rt.block_on(async { shell.run_string(cmd.to_string(), &si, &params).await }))
         .map(|r| u8::from(r.exit_code))
         .map_err(|e| e.to_string())
 }
 
 fn session_items(s: &Session) -> Vec<(String, Option<i64>)> {
-    s.shell.history().map(|h| h.iter().map(|i| (i.command_line.clone(), i.timestamp.map(|t| t.timestamp()))).collect()).unwrap_or_default()
+    s.sh().history().map(|h| h.iter().map(|i| (i.command_line.clone(), i.timestamp.map(|t| t.timestamp()))).collect()).unwrap_or_default()
 }
 
 fn read_file(p: &PathBuf) -> Vec<String> {
@@ -177,7 +189,7 @@ pub fn judge(case: &Case) -> Verdict {
     let mut v = Verdict::default();
     v.class_name = case.class.clone();
     v.case_key = fnv(&format!("{:?}|{:?}", case.ops, case.initial));
-    v.nontrivial = case.ops.iter().any(|o| matches!(o, Op::Save | Op::SaveA | Op::Exit)) && case.ops.iter().any(|o| matches!(o, Op::Add(_) | Op::AddS(_)));
+    v.nontrivial = case.ops.iter().any(|o| matches!(o, Op::Save | Op::SaveA | Op::RlSync | Op::Exit)) && case.ops.iter().any(|o| matches!(o, Op::Add(_) | Op::RlAdd(_) | Op::AddS(_)));
     v.runs = 1;
 
     let n = DIRN.fetch_add(1, std::sync::atomic::Ordering::SeqCst) % 4;
@@ -233,7 +245,7 @@ pub fn judge(case: &Case) -> Verdict {
         match op {
             Op::Add(i) => {
                 let c = CMDS[*i % CMDS.len()];
-                if let Err(e) = sessions[cur].shell.add_to_history(c) {
+                if let Err(e) = sessions[cur].sh().add_to_history(c) {
                     v.violation = Some(viol("C20/op-failed", format!("{}: {e}", describe(&case.ops, k))));
                     return v;
                 }
@@ -243,6 +255,38 @@ pub fn judge(case: &Case) -> Verdict {
                     let ts = session_items(&sessions[cur]).last().and_then(|x| x.1);
                     models[cur].items.push(MItem { cmd: t.to_string(), ts, dirty: true });
                 }
+            }
+            Op::RlAdd(i) => {
+                let c = CMDS[*i % CMDS.len()];
+                let r = RT.with(|rt| {
+                    use reedline::History as _;
+                    let _g = rt.enter();
+                    let mut rl = brush_interactive::verif_reedline_history(&sessions[cur].shell);
+                    rl.save(reedline::HistoryItem::from_command_line(c.trim_end_matches('\n'))).map(|_| ()).map_err(|e| format!("{e:?}"))
+                });
+                let r = r.and_then(|()| sessions[cur].sh().add_to_history(c).map_err(|e| e.to_string()));
+                if let Err(e) = r {
+                    v.violation = Some(viol("C20/op-failed", format!("{}: {e}", describe(&case.ops, k))));
+                    return v;
+                }
+                let t = c.trim();
+                if !t.is_empty() {
+                    let ts = session_items(&sessions[cur]).last().and_then(|x| x.1);
+                    models[cur].items.push(MItem { cmd: t.to_string(), ts, dirty: true });
+                }
+            }
+            Op::RlSync => {
+                let r = RT.with(|rt| {
+                    use reedline::History as _;
+                    let _g = rt.enter();
+                    let mut rl = brush_interactive::verif_reedline_history(&sessions[cur].shell);
+                    rl.sync().map_err(|e| e.to_string())
+                });
+                if let Err(e) = r {
+                    v.violation = Some(viol("C20/op-failed", format!("{}: {e}", describe(&case.ops, k))));
+                    return v;
+                }
+                model_save(&mut models[cur], &mut file_model);
             }
             Op::AddS(i) => {
                 let w = WORDS[*i % WORDS.len()];
@@ -254,7 +298,7 @@ pub fn judge(case: &Case) -> Verdict {
                 models[cur].items.push(MItem { cmd: w.to_string(), ts, dirty: true });
             }
             Op::Save => {
-                if let Err(e) = sessions[cur].shell.save_history() {
+                if let Err(e) = sessions[cur].sh().save_history() {
                     v.violation = Some(viol("C20/op-failed", format!("{}: {e}", describe(&case.ops, k))));
                     return v;
                 }
@@ -282,7 +326,7 @@ pub fn judge(case: &Case) -> Verdict {
             }
             Op::Drop | Op::Exit => {
                 if *op == Op::Exit {
-                    if let Err(e) = sessions[cur].shell.save_history() {
+                    if let Err(e) = sessions[cur].sh().save_history() {
                         v.violation = Some(viol("C20/op-failed", format!("{}: {e}", describe(&case.ops, k))));
                         return v;
                     }
@@ -375,7 +419,7 @@ pub fn judge(case: &Case) -> Verdict {
 }
 
 fn all_ops() -> Vec<Op> {
-    vec![Op::Add(0), Op::Add(1), Op::Add(2), Op::AddS(0), Op::Save, Op::SaveA, Op::New, Op::Drop, Op::Exit, Op::Next, Op::Del(1), Op::Del(-1), Op::Clear, Op::ToggleTs]
+    vec![Op::Add(0), Op::Add(1), Op::RlAdd(2), Op::AddS(0), Op::Save, Op::SaveA, Op::New, Op::Drop, Op::Exit, Op::Next, Op::Del(1), Op::Del(-1), Op::Clear, Op::ToggleTs]
 }
 
 impl Check for C20 {
@@ -394,10 +438,11 @@ impl Check for C20 {
         let n = rng.range(5, maxlen);
         let ops: Vec<Op> = (0..n)
             .map(|_| match rng.below(20) {
-                0..=4 => Op::Add(rng.below(CMDS.len() as u64) as usize),
+                0..=2 => Op::Add(rng.below(CMDS.len() as u64) as usize),
+                3..=4 => Op::RlAdd(rng.below(CMDS.len() as u64) as usize),
                 5..=6 => Op::AddS(rng.below(WORDS.len() as u64) as usize),
                 7..=8 => Op::Save,
-                9 => Op::SaveA,
+                9 => if rng.below(2) == 0 { Op::SaveA } else { Op::RlSync },
                 10..=11 => Op::New,
                 12 => Op::Drop,
                 13 => Op::Exit,
@@ -459,14 +504,14 @@ impl Check for C20 {
     }
     fn rule(&self) -> String {
         format!(
-            "all operation sequences up to length 4 (thorough: 5) over a {}-operation alphabet {{add (3 commands incl. blank-padded and a duplicate), history -s, save_history, history -a, new session, drop session without saving, exit (save then drop), switch session, history -d 1 / -1, history -c, toggle HISTTIMEFORMAT}} enumerated completely from an empty file, then seeded sequences of 5-12 operations over the full alphabet (7 commands, 3 words, more delete offsets) with up to three sessions alive and seeded initial file contents (with and without timestamp lines); after every operation the history file's lines and every session's item list must equal the executable model's, every new session must reload exactly the file's content, and a final restart must reload it; non-trivial = the sequence records something and saves; distinct = distinct (operation sequence, initial file)",
+            "all operation sequences up to length 4 (thorough: 5) over a {}-operation alphabet {{add (Shell::add_to_history, and through the reedline adapter + add_to_history; 3 commands incl. blank-padded), history -s, save_history, history -a, new session, drop session without saving, exit (save then drop), switch session, history -d 1 / -1, history -c, toggle HISTTIMEFORMAT}} enumerated completely from an empty file, then seeded sequences of 5-12 operations over the full alphabet (7 commands, 3 words, more delete offsets) with up to three sessions alive and seeded initial file contents (with and without timestamp lines); after every operation the history file's lines and every session's item list must equal the executable model's, every new session must reload exactly the file's content, and a final restart must reload it; non-trivial = the sequence records something and saves; distinct = distinct (operation sequence, initial file)",
             all_ops().len()
         )
     }
     fn components(&self) -> Value {
         json!({
             "real": ["brush-core history.rs (History::import/add/flush/remove_nth_item/clear, dirty flags)", "shell/history.rs (load_history, save_history, add_to_history)", "brush-builtins history (-s -a -d -c)", "a real file in a private directory"],
-            "stub": ["the reedline history adapter (brush-interactive/src/reedline/history.rs) is not linked: recording goes through Shell::add_to_history as interactive_shell.rs does", "no scheduler is involved: sessions interleave at operation granularity, which is what the statement quantifies over", "torn or failed writes are not injected (the statement quantifies over histories, not faults)"]
+            "stub": ["reedline itself: the history adapter brush hands to reedline (brush-interactive/src/reedline/history.rs) is real and is driven the way reedline's engine drives it (save(item) per accepted line, sync())", "no scheduler is involved: sessions interleave at operation granularity, which is what the statement quantifies over", "torn or failed writes are not injected (the statement quantifies over histories, not faults)"]
         })
     }
     fn assumptions(&self) -> Vec<String> {
